@@ -280,11 +280,8 @@ def _run_integration(cc, res, mode):
             res["violations"].append({"property": "C06", "what": f"{cc}: {bad}", "mode": "violation", "cc": cc, "call": H.iban_call(cps, validate_bban=True),
                                       "pred": {"kind": "custom", "module": "spec.replay_preds", "func": "c06_integration"}, "engine": H.outcome_of(r1)})
             return
-        kind = "accept" if r1[0] == "ret" else type(r1[1]).__name__
-        if kind not in seen and ctx.witness():
-            seen.add(kind)
-            cps = text(ctx.model())
-            res["witnesses"].append({"property": "C06", "what": f"{cc} validate_bban {kind}", "call": H.iban_call(cps, validate_bban=True), "mode": "witness", "engine": H.outcome_of(r1)})
+        # no witness replay here: the algorithm's verdict is a free Boolean in this harness, so a model of the path
+        # does not determine what the real algorithm says about the concrete text (the N jobs carry the witnesses)
 
     if stub is not None:
         checksum.algorithms[f"{cc}:default"] = stub
